@@ -255,9 +255,13 @@ def run_hyp(acc, sub, oracle, strategy, max_examples, seed, max_rounds=6, shrink
         state["last_fail"] = None
 
         def body(x):
+            if state.get("nfail", 0) > Acc.FAIL_BUDGET:
+                return  # enough failing evaluations (incl. shrinking): stop exercising the code under test
             inp = to_input(x) if to_input else x
             res = eval_oracle(acc.prop, sub, oracle, inp)
             fail = res[0]
+            if fail is not None:
+                state["nfail"] = state.get("nfail", 0) + 1
             if fail is not None:
                 # known findings and already recorded root causes do not stop the search
                 for fid, pred in acc.known:
@@ -299,6 +303,9 @@ def run_hyp(acc, sub, oracle, strategy, max_examples, seed, max_rounds=6, shrink
         acc.n += 1
         acc.by_sub[sub] += 1
         acc.add_fail(sub, inp, fail)
+        if state.get("nfail", 0) > Acc.FAIL_BUDGET:
+            acc.notes["hyp-stopped-after-fail-budget:" + sub] += 1
+            return
     acc.notes["hyp_rounds_exhausted:" + sub] += 1
 
 
